@@ -1,6 +1,9 @@
-//! Contract model of rand 0.9 (see Cargo.toml).  Draws are `kani::any()`
-//! constrained to the documented range.  Every draw is logged in DRAWS so a
-//! harness can check how many draws happened and from which generator.
+//! Contract model of rand 0.9 (see Cargo.toml).  A draw is `kani::any()`
+//! constrained to the documented range, or — in script mode — the value the
+//! harness put at the generator's current *position*.  Each `StdRng` value
+//! carries its own position (so a cloned/forked generator replays the same
+//! positions, as a real PRNG clone replays the same stream); every draw is
+//! logged with the position it consumed.
 #![allow(unexpected_cfgs)]
 
 use core::ops::{Range, RangeInclusive};
@@ -19,10 +22,17 @@ pub mod ghost {
         pub os_seeded: u32,
         pub seeded: u32,
         pub last_seed: u64,
-        /// when `script_on`, draws replay these values instead of being arbitrary
+        /// position of the thread-local generator
+        pub thread_pos: u32,
+        /// when `script_on`, the draw at generator position p is script[p % 8]
+        /// (f64 draws: a value in [0,1) scaled into the requested range)
         pub script: [f64; 8],
         pub script_u64: [u64; 8],
         pub script_on: bool,
+        /// per-draw log: generator position consumed, value drawn
+        pub pos_log: [u32; 8],
+        pub f64_log: [f64; 8],
+        pub u64_log: [u64; 8],
         /// bounds of the last f64 range request and the value drawn from it
         pub last_lo: f64,
         pub last_hi: f64,
@@ -30,13 +40,16 @@ pub mod ghost {
     }
     pub static mut G: Ghost = Ghost {
         magic: [0x52414e445f4d4f44, 0x454c5f47484f5354],
-        draws: 0, thread_rng_used: 0, os_seeded: 0, seeded: 0, last_seed: 0,
+        draws: 0, thread_rng_used: 0, os_seeded: 0, seeded: 0, last_seed: 0, thread_pos: 0,
         script: [0.0; 8], script_u64: [0; 8], script_on: false,
+        pos_log: [0; 8], f64_log: [0.0; 8], u64_log: [0; 8],
         last_lo: 0.0, last_hi: 0.0, last_f64: 0.0,
     };
-    pub fn draws() -> u32 { unsafe { G.draws } }
-    pub fn reset() { unsafe { G.draws = 0; G.thread_rng_used = 0; G.os_seeded = 0; G.seeded = 0; } }
+    pub fn g() -> &'static mut Ghost { unsafe { &mut *core::ptr::addr_of_mut!(G) } }
+    pub fn draws() -> u32 { g().draws }
+    pub fn reset_log() { let x = g(); x.draws = 0; }
 }
+use ghost::g;
 
 #[cfg(kani)]
 fn any_f64() -> f64 { kani::any() }
@@ -51,89 +64,110 @@ fn assume(b: bool) { kani::assume(b) }
 #[cfg(not(kani))]
 fn assume(_b: bool) {}
 
-fn next_index() -> usize {
-    unsafe {
-        let i = ghost::G.draws;
-        ghost::G.draws += 1;
-        i as usize
-    }
+/// Register one draw taken at generator position `pos`; returns its index.
+fn next_index(pos: usize) -> usize {
+    let x = g();
+    let i = x.draws as usize;
+    x.draws += 1;
+    if i < 8 { x.pos_log[i] = pos as u32; }
+    i
 }
+fn log_f64(i: usize, v: f64) { if i < 8 { g().f64_log[i] = v; } }
+fn log_u64(i: usize, v: u64) { if i < 8 { g().u64_log[i] = v; } }
 
-pub trait ModelStandard: Sized { fn draw() -> Self; }
+pub trait ModelStandard: Sized { fn draw(pos: usize) -> Self; }
 impl ModelStandard for f64 {
-    fn draw() -> f64 {
-        let i = next_index();
-        if unsafe { ghost::G.script_on } { return unsafe { ghost::G.script[i % 8] }; }
-        let v = any_f64();
+    fn draw(pos: usize) -> f64 {
+        let i = next_index(pos);
+        let v = if g().script_on { g().script[pos % 8] } else { any_f64() };
         assume(v >= 0.0 && v < 1.0);
+        log_f64(i, v);
         v
     }
 }
-impl ModelStandard for u64 { fn draw() -> u64 { next_index(); any_u64() } }
-impl ModelStandard for u32 { fn draw() -> u32 { next_index(); any_u64() as u32 } }
-impl ModelStandard for bool { fn draw() -> bool { next_index(); any_u64() & 1 == 1 } }
+impl ModelStandard for u64 { fn draw(pos: usize) -> u64 { let i = next_index(pos); let v = if g().script_on { g().script_u64[pos % 8] } else { any_u64() }; log_u64(i, v); v } }
+impl ModelStandard for u32 { fn draw(pos: usize) -> u32 { u64::draw(pos) as u32 } }
+impl ModelStandard for bool { fn draw(pos: usize) -> bool { u64::draw(pos) & 1 == 1 } }
 
-pub trait ModelRange<T> { fn pick(self) -> T; }
+pub trait ModelRange<T> { fn pick(self, pos: usize) -> T; }
 impl ModelRange<f64> for RangeInclusive<f64> {
-    fn pick(self) -> f64 {
+    fn pick(self, pos: usize) -> f64 {
         let (lo, hi) = (*self.start(), *self.end());
         // rand panics on an empty / non-finite range; keep that contract
         assert!(lo <= hi, "rand: empty range");
         assert!(lo.is_finite() && hi.is_finite(), "rand: non-finite range");
-        let i = next_index();
-        if unsafe { ghost::G.script_on } {
-            let t = unsafe { ghost::G.script[i % 8] };
+        let i = next_index(pos);
+        let v = if g().script_on {
+            let t = g().script[pos % 8];
             let v = lo + (hi - lo) * t;
-            return if v > hi { hi } else { v };
-        }
-        let v = any_f64();
-        assume(v >= lo && v <= hi);
-        unsafe { ghost::G.last_lo = lo; ghost::G.last_hi = hi; ghost::G.last_f64 = v; }
+            if v > hi { hi } else { v }
+        } else {
+            let v = any_f64();
+            assume(v >= lo && v <= hi);
+            v
+        };
+        let x = g();
+        x.last_lo = lo; x.last_hi = hi; x.last_f64 = v;
+        log_f64(i, v);
         v
     }
 }
 impl ModelRange<f64> for Range<f64> {
-    fn pick(self) -> f64 {
+    fn pick(self, pos: usize) -> f64 {
         assert!(self.start < self.end, "rand: empty range");
-        next_index();
+        let i = next_index(pos);
         let v = any_f64();
         assume(v >= self.start && v < self.end);
+        log_f64(i, v);
         v
     }
 }
 macro_rules! int_ranges { ($($t:ty),*) => {$(
     impl ModelRange<$t> for RangeInclusive<$t> {
-        fn pick(self) -> $t {
+        fn pick(self, pos: usize) -> $t {
             let (lo, hi) = (*self.start(), *self.end());
             assert!(lo <= hi, "rand: empty range");
-            let i = next_index();
-            if unsafe { ghost::G.script_on } {
+            let i = next_index(pos);
+            let v = if g().script_on {
                 let span = (hi - lo) as u64;
-                let s = unsafe { ghost::G.script_u64[i % 8] };
-                return lo + (if span == u64::MAX { s } else { s % (span + 1) }) as $t;
-            }
-            let v = any_u64() as $t;
-            assume(v >= lo && v <= hi);
+                let s = g().script_u64[pos % 8];
+                lo + (if span == u64::MAX { s } else { s % (span + 1) }) as $t
+            } else {
+                let v = any_u64() as $t;
+                assume(v >= lo && v <= hi);
+                v
+            };
+            log_u64(i, v as u64);
             v
         }
     }
     impl ModelRange<$t> for Range<$t> {
-        fn pick(self) -> $t {
+        fn pick(self, pos: usize) -> $t {
             assert!(self.start < self.end, "rand: empty range");
-            next_index();
-            let v = any_u64() as $t;
-            assume(v >= self.start && v < self.end);
+            let i = next_index(pos);
+            let v = if g().script_on {
+                let span = (self.end - self.start) as u64;
+                self.start + (g().script_u64[pos % 8] % span) as $t
+            } else {
+                let v = any_u64() as $t;
+                assume(v >= self.start && v < self.end);
+                v
+            };
+            log_u64(i, v as u64);
             v
         }
     }
 )*}}
 int_ranges!(u64, usize, u32);
 
-pub trait RngCore {}
+pub trait RngCore {
+    /// consume one position of this generator's stream
+    fn model_next_pos(&mut self) -> usize;
+}
 pub trait Rng: RngCore {
-    fn random<T: ModelStandard>(&mut self) -> T { T::draw() }
-    fn random_range<T, R: ModelRange<T>>(&mut self, range: R) -> T { range.pick() }
-    fn random_bool(&mut self, _p: f64) -> bool { bool::draw() }
+    fn random<T: ModelStandard>(&mut self) -> T { let p = self.model_next_pos(); T::draw(p) }
+    fn random_range<T, R: ModelRange<T>>(&mut self, range: R) -> T { let p = self.model_next_pos(); range.pick(p) }
+    fn random_bool(&mut self, _p: f64) -> bool { let p = self.model_next_pos(); bool::draw(p) }
 }
 impl<R: RngCore + ?Sized> Rng for R {}
 
@@ -144,28 +178,33 @@ pub trait SeedableRng: Sized {
 
 pub mod rngs {
     use super::*;
+    /// Seeded generator: a position in the stream determined by the seed.
     #[derive(Clone, Debug)]
-    pub struct StdRng { pub seeded: bool }
-    impl RngCore for StdRng {}
+    pub struct StdRng { pub seeded: bool, pub seed: u64, pub pos: usize }
+    impl RngCore for StdRng {
+        fn model_next_pos(&mut self) -> usize { let p = self.pos; self.pos += 1; p }
+    }
     impl SeedableRng for StdRng {
         fn seed_from_u64(seed: u64) -> Self {
-            unsafe { ghost::G.seeded += 1; ghost::G.last_seed = seed; }
-            StdRng { seeded: true }
+            let x = g();
+            x.seeded += 1; x.last_seed = seed;
+            StdRng { seeded: true, seed, pos: 0 }
         }
         fn from_os_rng() -> Self {
-            unsafe { ghost::G.os_seeded += 1; }
-            StdRng { seeded: false }
+            g().os_seeded += 1;
+            StdRng { seeded: false, seed: 0, pos: 0 }
         }
     }
     #[derive(Clone, Debug)]
     pub struct ThreadRng;
-    impl RngCore for ThreadRng {}
+    impl RngCore for ThreadRng {
+        fn model_next_pos(&mut self) -> usize { let x = g(); let p = x.thread_pos as usize; x.thread_pos += 1; p }
+    }
 }
 
 /// `rand::rng()` — thread-local generator.
 pub fn rng() -> rngs::ThreadRng {
-    unsafe { ghost::G.thread_rng_used += 1; }
+    g().thread_rng_used += 1;
     rngs::ThreadRng
 }
-pub fn random<T: ModelStandard>() -> T { T::draw() }
 pub mod prelude { pub use super::{Rng, RngCore, SeedableRng, rngs::StdRng, rngs::ThreadRng}; }
